@@ -199,7 +199,7 @@ def classify_exception(e):
   """C07's rule: explicit explanatory rejection vs internal error.
 
   Explicit rejection := ValueError / NotImplementedError with a non-empty message, or an
-  AssertionError whose message is an explanatory sentence (>= 3 words), *raised on purpose*:
+  AssertionError whose message is an explanatory sentence (>= 3 alphabetic words; a dumped list of numbers is not one), *raised on purpose*:
   the innermost repository frame is a `raise` / `assert` statement, or the exception was
   raised by validation code of a library the repository calls (innermost frame outside the
   repository).  A ValueError thrown by a builtin on a repository line (e.g. max() of an empty
@@ -207,6 +207,7 @@ def classify_exception(e):
 
   Returns ("reject", "Type@function") or ("internal", "Type@function")."""
   import os
+  import re
   import traceback
   repo = os.path.realpath(os.environ.get("VMON_REPO", "/repo"))
   tb = traceback.extract_tb(e.__traceback__)
@@ -216,7 +217,7 @@ def classify_exception(e):
   tag = "%s@%s" % (type(e).__name__, where)
   msg = str(e)
   explicit_type = (isinstance(e, (ValueError, NotImplementedError)) and bool(msg.strip())) or (
-      isinstance(e, AssertionError) and len(msg.split()) >= 3)
+      isinstance(e, AssertionError) and len(re.findall(r"[A-Za-z]{2,}", msg)) >= 3)
   if not explicit_type:
     return "internal", tag
   if tb and in_repo[-1]:
